@@ -15,6 +15,7 @@ EXTRA_TARGETS = {
     'C15': ['XdocModel.Proofs.Compose2'],
     'C18': ['XdocModel.Proofs.C18Labels', 'XdocModel.Proofs.Compose', 'XdocModel.Proofs.NDigits'],
     'C16': ['XdocModel.Proofs.Switch'],
+    'C09': ['XdocModel.Proofs.NoSilentFailure'],
     'C03': ['XdocModel.Proofs.ExcCorollaries'],
     'C06': ['XdocModel.Proofs.EllipsisCorollaries'],
     'C19': ['XdocModel.Proofs.Compose2', 'XdocModel.Proofs.DumpKept'],
@@ -72,6 +73,9 @@ EXTRA_THEOREMS['C06'] = [('Xdoc.C06.bare_ellipsis_matches_everything', 'full'), 
 
 EXTRA_THEOREMS['C03'] = [('Xdoc.C03.non_traceback_want_never_expected', 'full'), ('Xdoc.C03.detail_off_exact', 'full'),
                          ('Xdoc.C03.full_match_expected', 'full'), ('Xdoc.C03.empty_name_needs_full_match', 'full')]
+
+EXTRA_THEOREMS['C09'] = [('Xdoc.C09.passed_no_failure', 'full'), ('Xdoc.C09.skipped_no_failure', 'full'),
+                         ('Xdoc.C09.failure_reported_only_as_failed', 'full'), ('Xdoc.C09.no_parts_no_failure', 'full')]
 
 
 def _replay_K_C08_c(ctx, finding):
@@ -133,6 +137,8 @@ EXTRA_TEXT = {
     'C15': (" ADDED (Proofs/Compose2.lean): `both_exit_nonzero_iff_failed_of_frames`, `exit_statuses_agree` with the escape hypothesis replaced by C09's frame hypothesis."),
     'C03': (" ADDED (Proofs/ExcCorollaries.lean, fourth session): what IGNORE_EXCEPTION_DETAIL can and cannot do, for all exception lines and wants — "
             "`non_traceback_want_never_expected`, `detail_off_exact`, `full_match_expected`, `empty_name_needs_full_match` (corollaries of `expected_exception_iff`)."),
+    'C09': (" ADDED (Proofs/NoSilentFailure.lean, fourth session): the property read from the summary, for all part lists, oracles and configurations — "
+            "`passed_no_failure`, `skipped_no_failure` (a doctest reported as passed or skipped has no recorded failure), `failure_reported_only_as_failed`, `no_parts_no_failure`."),
     'C06': (" ADDED (Proofs/EllipsisCorollaries.lean, fourth session): direct consequences of `ellipsis_iff_spec` for ALL outputs — `bare_ellipsis_matches_everything`, "
             "`padded_ellipsis_matches_everything` (a want that is only `...`, with or without surrounding white space, accepts every output, the empty one included), "
             "`two_pieces_iff` (a want that splits into two pieces matches iff the output starts with the first and ends with the last without overlap), `two_pieces_length`."),
